@@ -180,7 +180,12 @@ def run_proc(cmd, outfile, timeout, env=None):
                 try:
                     events.append(json.loads(line))
                 except Exception:
-                    events.append({"t": "garbled", "raw": line[:200]})
+                    # printf renders non-finite numbers as nan / -nan / inf: quote them and retry
+                    fixed = re.sub(r'([:\[,])\s*(-?nan|-?inf)(?=[,}\]])', lambda m: m.group(1) + '"' + m.group(2) + '"', line)
+                    try:
+                        events.append(json.loads(fixed))
+                    except Exception:
+                        events.append({"t": "garbled", "raw": line[:300]})
     return {"rc": rc, "stderr": err, "timeout": to, "events": events, "wall": time.time() - t0}
 
 
@@ -334,6 +339,8 @@ def run_property(prop, tier, seed, only_archs=None, scale=None, extra_args=None,
                 done = True
             elif t == "inconclusive":
                 inconclusive.append("%s: %s" % (tag, ev.get("why", "")))
+            elif t == "garbled":
+                inconclusive.append("%s: unparsable event line: %s" % (tag, ev.get("raw", "")))
         if j.get("tag") == "valgrind":
             for m in re.finditer(r"(Invalid (?:read|write) of size \d+[^\n]*|Conditional jump or move depends on uninitialised[^\n]*|Use of uninitialised value[^\n]*)", r["stderr"]):
                 san_reports.append({"job": tag, "report": "valgrind: " + m.group(1)[:300]})
